@@ -9,6 +9,7 @@ DEPS = ["FilePoolOps.tla"]
 TRACE = "FilePoolTrace.tla"
 TCFG = "Trace_FilePool.cfg"
 CHUNK = 120000   # lines per TLC run (a trace is never split)
+MAXFAIL = 3      # failing traces saved per run; each costs one more TLC pass
 
 
 def _chunks(path, outdir, label):
@@ -36,8 +37,12 @@ def _chunks(path, outdir, label):
 def _validate(ctx, path, outdir, label, classify, timeout):
     failures = 0
     for i, p in enumerate(_chunks(path, outdir, label)):
-        failures += vlib.validate_traces(ctx, p, TRACE, TCFG, DEPS, "%s%d" % (label, i),
-                                         classify=classify, timeout=timeout)
+        if len(ctx.violations) >= MAXFAIL:
+            vlib.log("  (enough failing traces saved; %s chunk %d not validated)" % (label, i))
+        else:
+            failures += vlib.validate_traces(ctx, p, TRACE, TCFG, DEPS, "%s%d" % (label, i),
+                                             classify=classify, timeout=timeout,
+                                             max_failures=MAXFAIL - len(ctx.violations))
         os.remove(p)
     return failures
 
@@ -56,26 +61,32 @@ def run(ctx):
     # 1. design: the sector-map design denotes the abstract sparse file, no
     #    sector has two owners, sectors and quota are conserved (also after
     #    failed calls), exhaustively for a tiny configuration
-    vlib.design_check(ctx, "FilePool.tla", "MC_FilePool.cfg", DEPS, timeout=1200, workers=4)
+    vlib.design_check(ctx, "FilePool.tla", "MC_FilePool.cfg", DEPS, timeout=1200, workers=2, heap="2g")
     if not quick:
-        vlib.design_check(ctx, "FilePool.tla", "MC_FilePool_big.cfg", DEPS, timeout=3000, workers=8)
+        vlib.design_check(ctx, "FilePool.tla", "MC_FilePool_big.cfg", DEPS, timeout=3000, workers=4, heap="4g")
     # 2. the real code
     binary = vlib.go_build_test(ctx, "filepool")
     tv_timeout = 1500 if quick else 3000
+    only = [x for x in os.environ.get("VERIF_C15_ONLY", "rand,enum,alloc").split(",") if x]   # debugging aid
+    scale = float(os.environ.get("VERIF_C15_SCALE", "1"))                                     # debugging aid
+    rmeta, emeta = {}, {}
     # 2a. seeded random interleavings on 1-3 files, random tiny configurations, scripted faults
-    out = _drive(ctx, binary, "TestRandom", "rand",
-                 {"VERIF_N": 300 if quick else 3000, "VERIF_STEPS": 30 if quick else 40})
-    _validate(ctx, out + "/trace.ndjson", out, "random", classify, tv_timeout)
-    ctx.cov["samples"] += vlib.sample_lines(out + "/trace.ndjson", 8)
-    rmeta = json.load(open(out + "/meta.json"))
+    if "rand" in only:
+        out = _drive(ctx, binary, "TestRandom", "rand",
+                     {"VERIF_N": int(scale * (300 if quick else 3000)), "VERIF_STEPS": 30 if quick else 40})
+        ctx.cov["samples"] += vlib.sample_lines(out + "/trace.ndjson", 8)
+        _validate(ctx, out + "/trace.ndjson", out, "random", classify, tv_timeout)
+        rmeta = json.load(open(out + "/meta.json"))
     # 2b. every short sequence of state-changing calls over tiny domains, every listed fault position
-    out2 = _drive(ctx, binary, "TestEnumerate", "enum", {"VERIF_FP_LEVEL": 1 if quick else 2})
-    _validate(ctx, out2 + "/trace.ndjson", out2, "enum", classify, tv_timeout)
-    emeta = json.load(open(out2 + "/meta.json"))
+    if "enum" in only:
+        out2 = _drive(ctx, binary, "TestEnumerate", "enum", {"VERIF_FP_LEVEL": 1 if quick else 2})
+        _validate(ctx, out2 + "/trace.ndjson", out2, "enum", classify, tv_timeout)
+        emeta = json.load(open(out2 + "/meta.json"))
     # 2c. the real bitmap allocator alone, sector counts around the 64-bit word boundaries
-    out3 = _drive(ctx, binary, "TestAllocator", "alloc",
-                  {"VERIF_N": 100 if quick else 600, "VERIF_STEPS": 60 if quick else 120})
-    _validate(ctx, out3 + "/trace.ndjson", out3, "alloc", classify, tv_timeout)
+    if "alloc" in only:
+        out3 = _drive(ctx, binary, "TestAllocator", "alloc",
+                      {"VERIF_N": int(scale * (100 if quick else 600)), "VERIF_STEPS": 60 if quick else 120})
+        _validate(ctx, out3 + "/trace.ndjson", out3, "alloc", classify, tv_timeout)
     ctx.assumptions.append("hole sources are not longer than the size their file is created with "
                            "(copy-on-write use); calls on one pool are sequential (files are not "
                            "thread-safe and the harness does not run files concurrently); offsets < 2^31")
